@@ -462,7 +462,7 @@ def variant_index(enum, variant):
     return ENUMS[enum].index(variant)
 
 
-UNIT_STRUCTS = {"RangeFull"}
+UNIT_STRUCTS = {"RangeFull", "PhantomData"}
 
 
 def box_ref(b):
@@ -1210,6 +1210,8 @@ class Ctx:
             return m
         if f is None and re.match(r"(?:[A-Za-z_][A-Za-z0-9_]*::)*[A-Z][A-Za-z0-9]*$", name) and name.split("::")[-1] in UNIT_STRUCTS:
             return Agg(name.split("::")[-1], None, [])
+        if f is None and re.match(r"(?:[A-Za-z_][A-Za-z0-9_]*::)*PhantomData::<.*>$", name):
+            return Agg("PhantomData", None, [])
         if f is None and re.match(r"(?:<.*>::)?(?:[A-Za-z_][A-Za-z0-9_]*::)*[A-Za-z_][A-Za-z0-9_]*$", name):
             # a named constant of a foreign crate: unknown value (any use of it in arithmetic is refused later)
             return Opaque("const " + name)
